@@ -1,5 +1,5 @@
 (* C03 — Block decoding is memory-safe on arbitrary input (assembly and portable). *)
-From LZ4V Require Import Base BlockFormat DecodePortable DecodeAsm BlockTheoremsSpec BlockTheorems.
+From LZ4V Require Import Base BlockFormat BlockExec DecodePortable DecodeAsm DecodeAsmMonitor BlockTheoremsSpec BlockTheorems.
 
 (* a result is an error or a count 0 <= n <= len(dst); the destination keeps its length (no write
    outside dst[0:len]): in the zipper models every access is inside src / dict / dst by construction,
@@ -14,5 +14,18 @@ Theorem C03_total_asm : exact_stmt decode_asm.            Proof. exact asm_exact
 Print Assumptions C03_total_asm.
 Theorem C03_total_portable : exact_stmt decode_portable.  Proof. exact portable_exact. Qed.
 Print Assumptions C03_total_portable.
+(* the wide moves of the assembly made explicit: in the monitored model every 16/48-byte literal move,
+   the 8+8+2-byte match move, the 16-byte interior move and every exact copy carries the bounds of the
+   load and of the store; a move that would leave src, dict or dst[0:len] is the result MFault.  For
+   every byte source, every destination and every dictionary the monitored decoder never faults, and
+   it is the same function as the unmonitored model *)
+Theorem C03_asm_never_faults : forall src dst0 dict, bytes src -> decode_asm_m src dst0 dict <> MFault.
+Proof. exact asm_never_faults. Qed.
+Print Assumptions C03_asm_never_faults.
+Theorem C03_asm_monitor_erase : forall src dst0 dict, decode_asm_m src dst0 dict <> MFault ->
+  match decode_asm_m src dst0 dict with
+  | MOk n d => decode_asm src dst0 dict = DOk n d | MErr => decode_asm src dst0 dict = DErr | MFault => False end.
+Proof. exact asm_monitor_erase. Qed.
+Print Assumptions C03_asm_monitor_erase.
 Example C03_nonvacuous : decode_asm [16; 7; 1; 0] [0; 0] [] = DErr /\ decode_portable [16; 7; 1; 0] [0; 0] [] = DErr.
 Proof. vm_compute. split; reflexivity. Qed.
